@@ -247,6 +247,12 @@ def configs(tier, seed):
                     out.append(("run_populations", {"sampler": sampler, "N": 8, "opts": dict(sched) if sampler in ("smc", "emcee_smc") else {},
                                                     "cadence": 2, "n_final": 12 if sampler in ("smc", "emcee_smc") else None,
                                                     "precond": precond, "seed": sd, "ns": ns, "dtype": dt}))
+    for precond in ("none", "tight", "logit_affine"):
+        for mo in ({"burnin": 1, "thin": 2}, {"last_step_only": True}):
+            out.append(("run_populations", {"sampler": "minipcn", "N": 8, "opts": {}, "cadence": 2, "n_final": None, "precond": precond, "seed": 0,
+                                            "ns": "numpy", "dtype": None, "mcmc_opts": mo}))
+        out.append(("run_populations", {"sampler": "emcee", "N": 8, "opts": {}, "cadence": 2, "n_final": None, "precond": precond, "seed": 0,
+                                        "ns": "numpy", "dtype": None, "mcmc_opts": {"discard": 1}}))
     for pre in ("none", "logit"):
         out.append(("run_populations", {"sampler": "blackjax_smc", "N": 8, "seed": 0, "opts": {"adaptive": True, "target_efficiency": 0.8},
                                         "n_final": 12, "precond": pre}))
